@@ -195,6 +195,9 @@ func (o *c06) Step(r *StepRec) []Violation {
 			if len(el.E) < len(rc.Providers) {
 				o.hit("issued_to_strict_subset")
 			}
+			if !exists || prc.State != stRunning {
+				o.fail("c06:issued_not_running", "context %s: requests issued although the context ended the block %s (a consumer who cannot pay gets no requests)", short(cid), stateName(prc.State))
+			}
 		case exists && prc.BatchCounter == rc.BatchCounter+1:
 			outcomes["skipped"] = true
 			o.hit("skipped")
@@ -211,6 +214,23 @@ func (o *c06) Step(r *StepRec) []Violation {
 			if !qualifies || rc.SuperMode || el.Total <= bal {
 				o.fail("c06:paused", "context %s paused for funds: qualifies=%v super=%v total=%d consumer balance=%d", short(cid), qualifies, rc.SuperMode, el.Total, bal)
 			}
+		}
+	}
+	// issued requests are paid for: each consumer's debit equals the fees of the requests issued for it
+	due := map[string]int64{}
+	for _, id := range NewReqs(r) {
+		rq := post.Reqs[id]
+		due[hx(pre.Ctxs[hx(rq.RequestContextId)].Consumer)] += stakeOf(rq.ServiceFee)
+	}
+	refunds := map[string]int64{}
+	for _, ri := range o.m.Expiring(r.Height) {
+		if !ri.Super {
+			refunds[ri.Consumer] += ri.Fee
+		}
+	}
+	for _, c := range sortedAddrs(due) {
+		if got := pre.Bal[c] + refunds[c] - post.Bal[c]; got != due[c] {
+			o.fail("c06:charge", "consumer %s paid %d for requests carrying %d in total", short(c), got, due[c])
 		}
 	}
 	// no request for a context that was not due and running
